@@ -321,11 +321,21 @@ def check(case, stats=None):
                     T2 = build(tname, R2, 0)
                 elif op.get("variant"):
                     T2 = build(tname, R2, op["variant"])      # same rows, other valid dtypes
-                if op.get("variant") == 3:
-                    # appending to an empty table: an empty table built afresh (plain text, default dtypes) comes first, then the two operands
-                    new = np.concatenate([build(tname, [], 0), T, T2]) if (n or len(R2)) else np.concatenate([T, T2])
-                else:
-                    new = np.concatenate([T, T2])
+                if op.get("variant") == 3 and n and not hasattr(T, "get_data_object"):
+                    # appending to an empty table: an empty table built afresh (plain text) comes first, then the operand with one of its text
+                    # columns handed over as a DNA-encoded column
+                    tcols = [(j, nm) for j, (nm, k) in enumerate(kinds) if k in ("str", "id")]
+                    if not tcols:
+                        continue
+                    j, nm = tcols[op["src2"] % len(tcols)]
+                    vals = ["ACGT"[(op["src2"] + i) % 4] * (1 + i % 3) + "GA"[i % 2] for i in range(n)]
+                    T_dna = bnp.replace(T, **{nm: bnp.as_encoded_array(list(vals), bnp.DNAEncoding)})
+                    rows = [tuple(vals[i] if c == j else v for c, v in enumerate(r)) for i, r in enumerate(R)]
+                    new = np.concatenate([build(tname, [], 0), T_dna])
+                    pool.append((new, rows))
+                    verify(new, rows, op)
+                    continue
+                new = np.concatenate([T, T2])
                 pool.append((new, R + R2))
                 verify(new, R + R2, op)
             elif name == "sort_by":
